@@ -331,3 +331,102 @@ func deref(v ssa.Value) ssa.Value {
 	}
 	return v
 }
+
+// reachingFieldStore: for a load of field f through a pointer (heap object), the unique store to the
+// same address expression that dominates the load with no possible intervening write to field f.
+// Calls kill the field only when a module callee (static, or any module implementer of the invoked
+// interface method) may store to f; code outside the module cannot name fields of unexported types,
+// and for exported types an external call is a kill.
+func reachingFieldStore(p *Prog, ld *ssa.UnOp) *ssa.Store {
+	fa, ok := ld.X.(*ssa.FieldAddr)
+	if !ok {
+		return nil
+	}
+	fv := fieldOfAddr(fa)
+	if fv == nil {
+		return nil
+	}
+	k := newKeyer()
+	k.pureFieldLoads = true
+	addr := k.Key(fa)
+	fn := ld.Parent()
+	var cands []*ssa.Store
+	var kills []ssa.Instruction
+	ownerExported := true
+	if pt, ok := fa.X.Type().Underlying().(*types.Pointer); ok {
+		if n, ok := pt.Elem().(*types.Named); ok {
+			ownerExported = n.Obj().Exported()
+		}
+	}
+	eachInstr(fn, func(b *ssa.BasicBlock, i int, in ssa.Instruction) {
+		switch x := in.(type) {
+		case *ssa.Store:
+			if sa, ok := x.Addr.(*ssa.FieldAddr); ok && fieldOfAddr(sa) == fv {
+				if k.Key(sa) == addr {
+					cands = append(cands, x)
+				} else {
+					kills = append(kills, x)
+				}
+			}
+		case ssa.CallInstruction:
+			if _, isDefer := in.(*ssa.Defer); isDefer {
+				return
+			}
+			cc := x.Common()
+			if _, isB := cc.Value.(*ssa.Builtin); isB {
+				return
+			}
+			killed := false
+			resolved := false
+			for _, cs := range p.CG().Sites[fn] {
+				if cs.Instr != x {
+					continue
+				}
+				resolved = true
+				for _, g := range cs.Callees {
+					mod, unknown := modFields(p, g, map[*ssa.Function]bool{})
+					if mod[fv] || (unknown && ownerExported) {
+						killed = true
+					}
+				}
+				if (cs.Dynamic || cs.ExtIface != "" || len(cs.External) > 0) && ownerExported {
+					for _, e := range cs.External {
+						if !extAllowed(e) {
+							killed = true
+						}
+					}
+					if cs.Dynamic || cs.ExtIface != "" {
+						killed = true
+					}
+				}
+			}
+			if !resolved && ownerExported {
+				killed = true
+			}
+			if killed {
+				kills = append(kills, in)
+			}
+		}
+	})
+	var best *ssa.Store
+	for _, c := range cands {
+		if !instrDominates(c, ld) {
+			continue
+		}
+		ok := true
+		for _, o := range cands {
+			if o != c && reachableFrom(c, o) && reachableAvoid(o, ld, c) {
+				ok = false
+			}
+		}
+		for _, kl := range kills {
+			if reachableFrom(c, kl) && reachableAvoid(kl, ld, c) {
+				ok = false
+			}
+		}
+		if ok {
+			best = c
+		}
+	}
+	return best
+}
